@@ -396,7 +396,7 @@ fn run_case(seed: u64, index: u64, shape: Shape, rep: &mut Report) {
     }
     let Some(o) = outcome else {
         fail(&mut w, "never-resolves", format!("{shape:?} did not resolve"));
-        finish(w, seed, index, &shape, rep, requests);
+        finish(&mut w, seed, index, &shape, rep, requests);
         return;
     };
     if write_side {
@@ -444,10 +444,10 @@ fn run_case(seed: u64, index: u64, shape: Shape, rep: &mut Report) {
             }
         }
     }
-    finish(w, seed, index, &shape, rep, requests);
+    finish(&mut w, seed, index, &shape, rep, requests);
 }
 
-fn finish(mut w: World, seed: u64, index: u64, shape: &Shape, rep: &mut Report, requests: usize) {
+fn finish(w: &mut World, seed: u64, index: u64, shape: &Shape, rep: &mut Report, requests: usize) {
     w.collect_monitor_violations();
     if !w.poisoned {
         w.teardown();
@@ -565,11 +565,11 @@ fn exhaustive_shapes() -> Vec<Shape> {
 
 pub const EXHAUSTIVE_BASE: u64 = 1_000_000;
 
-pub fn run(seed: u64, start: u64, iters: u64, rep: &mut Report) {
+pub fn run(seed: u64, start: u64, iters: u64, rep: &mut Report, with_exhaustive: bool) {
     let ex = exhaustive_shapes();
     let mut indices: Vec<u64> = Vec::new();
-    // Shard 0 runs the exhaustive small space first.
-    if start == 0 {
+    // Shard 0 runs the exhaustive small space first (not under Miri: too slow there).
+    if start == 0 && with_exhaustive {
         indices.extend((0..ex.len() as u64).map(|i| EXHAUSTIVE_BASE + i));
     }
     indices.extend(start..start + iters);
@@ -585,7 +585,7 @@ pub fn run(seed: u64, start: u64, iters: u64, rep: &mut Report) {
         };
         super::guarded(rep, "c10", "C10", seed, index, |rep| run_case(seed, index, s.clone(), rep));
     }
-    if start == 0 {
+    if start == 0 && with_exhaustive {
         rep.count("exhaustive_small_shapes", ex.len() as u64);
     }
 }
